@@ -552,7 +552,13 @@ func (fc *FnCtx) oblige(st *State, name, kind string, tags []string, goal, descr
 	}
 	q := &Query{Hyps: st.hyps(), Goal: goal, Path: fc.pathCount}
 	ob.Queries = append(ob.Queries, q)
-	// after checking, the goal may be assumed on this path
+	// after checking, the goal may be assumed on the rest of this path - except for
+	// end-of-path obligations (postconditions, invariant preservation, measures): assuming
+	// them would let one failing clause mask its siblings, which may belong to another property
+	switch kind {
+	case "post", "inv-keep", "decreases", "loop-body", "scan-complete":
+		return
+	}
 	st.addAssume(goal)
 }
 
